@@ -247,6 +247,19 @@ func StructuralOps(nd Node, quick bool) map[string]interface{} {
 		if len(v) > 0 {
 			ops["array-shorter"] = append([]interface{}{}, v[:len(v)-1]...)
 			ops["array-longer"] = append(append([]interface{}{}, v...), Clone(v[len(v)-1]))
+			// COORDINATED lengths: one element a byte longer, another a byte shorter (the total size is unchanged,
+			// so a check of the summed size passes while each element has the wrong length)
+			if len(v) >= 2 {
+				i, j := len(v)/3, len(v)-1-len(v)/4
+				bi, ok1 := v[i].([]byte)
+				bj, ok2 := v[j].([]byte)
+				if ok1 && ok2 && i != j && len(bj) > 0 {
+					w := append([]interface{}{}, v...)
+					w[i] = append(append([]byte{}, bi...), 0)
+					w[j] = append([]byte{}, bj[:len(bj)-1]...)
+					ops["byte-moved-between-elements"] = w
+				}
+			}
 		}
 	case map[interface{}]interface{}:
 		// duplicated key: re-encode by hand with the first entry repeated
